@@ -401,6 +401,10 @@ func makeSampleDir(root string, s, nbytes int, seed uint64, lfsrOnly bool, dupNa
 	_ = os.MkdirAll(root, 0o755)
 	r := gen.NewRng(seed)
 	subs := []string{"", "a", "a/b", "c.d", "deep/er/still"}
+	if dupNames {
+		// nested directories whose own names carry a sample suffix: they are directories, not samples
+		subs = append(subs, "archive.bin", "old.dat/inner")
+	}
 	for i := 0; i < s; i++ {
 		sub := subs[0]
 		if s > 1 {
